@@ -74,7 +74,7 @@ def gen_case(rng):
         if k in ("cost", "multi"):
             sig["cost"] = {"type": "fixed", "value": rng.choice([0.05, 0.3, -0.1, 0])}
         if k in ("max", "multi"):
-            sig["max_power"] = rng.choice([10, 40, 200, 75])
+            sig["max_power"] = rng.choice([10, 40, 200, 75, 0])
         if k in ("target",):
             sig["target"] = rng.choice([0, 5, 12.5])
         if k in ("window", "multi"):
